@@ -22,8 +22,13 @@ SIM = ["Nsl/Model/Map.lean", "Nsl/Model/Val.lean", "Nsl/Model/IR.lean", "Nsl/Mod
        "Nsl/Model/VM.lean", "Nsl/Model/CoreSem.lean", "Nsl/Proofs/VMSteps.lean", "Nsl/Proofs/StepLemmas.lean", "Nsl/Proofs/LowerShape.lean",
        "Nsl/Proofs/SimBase.lean", "Nsl/Proofs/SimExpr.lean", "Nsl/Proofs/SimStmt.lean", "Nsl/Proofs/SimMain.lean", "Nsl/Props/C01.lean"]
 
+STOR = ["Nsl/Model/StorageCore.lean", "Nsl/Proofs/StorShape.lean", "Nsl/Proofs/StorBase.lean", "Nsl/Proofs/StorExpr.lean", "Nsl/Proofs/StorEval.lean",
+        "Nsl/Proofs/StorStmt.lean", "Nsl/Proofs/StorMain.lean", "Nsl/Props/C01Storage.lean"]
+LOWOK = ["Nsl/Model/Opt.lean", "Nsl/Proofs/Opt.lean", "Nsl/Proofs/OptSimBase.lean", "Nsl/Proofs/OptSimStep.lean", "Nsl/Proofs/OptSimKept.lean", "Nsl/Proofs/OptSimRun.lean",
+         "Nsl/Proofs/OptSimPres.lean", "Nsl/Proofs/OptSimPasses.lean", "Nsl/Proofs/OptSimConv.lean", "Nsl/Proofs/LowerLocal1.lean", "Nsl/Proofs/LowerLocal2.lean",
+         "Nsl/Proofs/LowerLocal3.lean", "Nsl/Props/LowerOK.lean"]
 PROPS = {
-    "C01": ("p_c01", "Nsl.Props.C01", [], SIM),
+    "C01": ("p_c01", "Nsl.Props.C01", ["Nsl.Props.C01Storage", "Nsl.Props.LowerOK"], SIM + STOR + LOWOK),
     "C02": ("p_c02", "Nsl.Props.C02", [], ["Nsl/Model/Opt.lean", "Nsl/Model/VM.lean", "Nsl/Model/IR.lean", "Nsl/Model/Val.lean", "Nsl/Proofs/VMSteps.lean", "Nsl/Proofs/Opt.lean", "Nsl/Proofs/OptSimBase.lean", "Nsl/Proofs/OptSimStep.lean", "Nsl/Proofs/OptSimKept.lean", "Nsl/Proofs/OptSimRun.lean", "Nsl/Proofs/OptSimPres.lean", "Nsl/Proofs/OptSimPasses.lean", "Nsl/Proofs/OptSimConv.lean", "Nsl/Proofs/StepLemmas.lean", "Nsl/Model/WF.lean", "Nsl/Props/C02.lean"]),
     "C03": ("p_c03", "Nsl.Props.C03", [], SIM + ["Nsl/Props/C03.lean"]),
     "C04": ("p_c04", "Nsl.Props.C04", [], ["Nsl/Model/VM.lean", "Nsl/Model/Val.lean", "Nsl/Model/Lower.lean", "Nsl/Proofs/StepLemmas.lean", "Nsl/Props/C04.lean"]),
@@ -38,7 +43,8 @@ PROPS = {
     "C11": ("p_c11", "Nsl.Props.C11", [], ["Nsl/Model/Flow.lean", "Nsl/Proofs/Flow.lean", "Nsl/Props/C11.lean"]),
     "C12": ("p_c12", "Nsl.Props.C12", [], ["Nsl/Model/Names.lean", "Nsl/Proofs/Names.lean", "Nsl/Proofs/NamesBinding.lean", "Nsl/Proofs/NamesStatic.lean", "Nsl/Props/C12.lean"]),
     "C13": ("p_c13", "Nsl.Props.C13", [], ["Nsl/Model/Static.lean", "Nsl/Proofs/Static.lean", "Nsl/Props/C13.lean"]),
-    "C14": ("p_c14", "Nsl.Props.C14", [], ["Nsl/Model/WF.lean", "Nsl/Proofs/WF.lean", "Nsl/Props/C14.lean", "Nsl/Model/IR.lean"]),
+    "C14": ("p_c14", "Nsl.Props.C14", ["Nsl.Props.C14Opt"], ["Nsl/Model/WF.lean", "Nsl/Proofs/WF.lean", "Nsl/Props/C14.lean", "Nsl/Model/IR.lean", "Nsl/Model/Opt.lean",
+                                               "Nsl/Proofs/WFBlock.lean", "Nsl/Proofs/WFOpt.lean", "Nsl/Proofs/OptSimBase.lean", "Nsl/Proofs/OptSimPres.lean", "Nsl/Proofs/OptSimPasses.lean", "Nsl/Props/C14Opt.lean"]),
     "C16": ("p_c16", "Nsl.Props.C16", [], ["Nsl/Model/Link.lean", "Nsl/Proofs/Link.lean", "Nsl/Props/C16.lean"]),
     "C17": ("p_c17", "Nsl.Props.C17", [], ["Nsl/Model/VM.lean", "Nsl/Proofs/VMSteps.lean", "Nsl/Props/C17.lean"]),
     "C18": ("p_c18", "Nsl.Props.C18", [], ["Nsl/Model/Lower.lean", "Nsl/Model/Overload.lean", "Nsl/Model/Link.lean", "Nsl/Props/C18.lean"]),
@@ -191,6 +197,19 @@ def main():
             else:
                 broken.append(("axioms:" + n, "theorem not found in built module"))
     obligations = len(thms)
+    # thorough tier: the toolchain's independent re-checker replays the compiled property module (and what it imports)
+    # through the kernel again
+    checker_note = None
+    if tier == "thorough" and build.ok:
+        import subprocess
+        t1 = time.time()
+        try:
+            cp = subprocess.run(["lake", "env", "leanchecker", thm_module], cwd=os.path.join(VERIF, "lean"), capture_output=True, text=True, timeout=1500)
+            if cp.returncode != 0:
+                broken.append(("leanchecker:" + thm_module, (cp.stdout + cp.stderr)[-400:]))
+            checker_note = "leanchecker %s: rc=%d in %.0fs" % (thm_module, cp.returncode, time.time() - t1)
+        except subprocess.TimeoutExpired:
+            checker_note = "leanchecker %s: no answer within 1500 s (not counted as a verdict)" % thm_module
 
     # ---- 4/5 correspondence and oracle
     run = Run(pid, tier, seed)
@@ -274,7 +293,7 @@ def main():
             model_impl_mismatches=sum(v for k, v in run.dist.items() if k.startswith('mismatch:')),
             oracle_failures=sum(v for k, v in run.dist.items() if k.startswith('oracle-fail:')),
             known_findings_reported=sorted(known_hit),
-            notes=run.notes,
+            notes=run.notes + ([checker_note] if checker_note else []),
             build_wall_s=round(build.wall, 2),
         ),
         assumptions=getattr(mod, "ASSUMPTIONS", []),
